@@ -74,6 +74,8 @@ def parse_type(text):
         return TupT([parse_type(p) for p in parts])
     if text.startswith("ref"):
         return Ref(text[4:] or None) if text[3:4] in (":", "") else Ref(text)
+    if text == "regex":
+        return Ty("regex")
     table = {"int": TINT, "bool": TBOOL, "str": TSTR, "tstr": TTSTR, "none": TNONE, "any": TANY, "cls": TCLS}
     if text in table:
         return table[text]
@@ -100,8 +102,12 @@ def _split_top(s):
 
 def flatten(ty):
     k = ty.kind
-    if k in ("int", "cls", "ref"):
+    if k in ("int", "cls", "ref", "regex"):
         return [INT]
+    if k == "optmatch":
+        return [BOOL]
+    if k in ("match", "func", "excval", "excobj"):
+        return [INT] if k == "excobj" else []
     if k == "bool":
         return [BOOL]
     if k == "str":
